@@ -47,7 +47,7 @@ def render_layout(rng, toks):
         if k in ("id", "tag"):
             v = "".join(c.upper() if rng.random() < 0.3 else c for c in v)
         if k == "ml":
-            if rng.random() < 0.5:
+            if rng.random() < 0.5 and "\r" not in v:
                 v = v.replace("\n", "\r\n")
             v = v.rstrip("\r\n") + rng.choice(["\n", "\r\n"])
         out.append(v)
